@@ -4,6 +4,7 @@ from .. import db as D
 from .. import prog as P
 from .. import terms as T
 from ..rules import slots
+from ..rules import sets as SP
 from ..rules import guard as G
 from ..rules import rel, life as L
 from . import c03
@@ -173,6 +174,53 @@ def pair_rule(chk, db):
     return n
 
 
+ALIAS_MUT = {"clear", "erase", "pop_back", "rotate", "move_backward", "copy_backward", "swap_ranges", "shift_left", "shift_right",
+             "reverse", "unsafe_destroy", "unsafe_destroy_all", "destroy", "destroy_at"}
+ELEM_TYPES = ("constT&", "const_reference", "constvalue_type&")
+
+
+def alias_rule(chk, db):
+    """ALIAS: insert/push_back/resize take the new value by const reference and std::vector allows it to refer to an element
+    of the vector itself (v.insert(v.begin(), v[2])). On every path the last read of that parameter therefore precedes the
+    first operation that moves, overwrites or destroys existing elements. (assign and the constructors are exempt:
+    [sequence.reqmts] forbids a reference into the container there.)"""
+    n = 0
+    for f in db.funcs:
+        r = f.get("record") or ""
+        if not ("static_vector" in r or "inplace_vector" in r) or f.get("body") is None or f["n"] in ("assign", "<ctor>", "operator="):
+            continue
+        ps = [p0["n"] for p0 in f["params"] if p0["ty"].replace(" ", "").split("::")[-1] in ELEM_TYPES]
+        if not ps:
+            continue
+        x = ps[0]
+        n += 1
+        construct = astx.sig(f)
+        chk.instance("ALIAS")
+        bad = None
+        for p in SP.paths(f["body"]):
+            mut = None
+            for ev in p:
+                for e in SP.event_exprs(ev):
+                    # evaluation order inside one expression: arguments before the call that receives them
+                    reads = any(y.get("k") == "ref" and y.get("n") == x and y.get("d") == "param" for y in astx.walk_expr(e, into_lambdas=True))
+                    if reads and mut is not None and bad is None:
+                        bad = (e, mut)
+                    for c in SP.calls_in(e):
+                        nm = astx.callee(c)[0]
+                        own_move = nm == "move" and len(c["a"]) == 1 and any(
+                            z.get("k") == "call" and astx.callee(z)[0] in ("back", "front", "operator[]", "at") or
+                            (z.get("k") == "un" and z.get("op") == "*") or z.get("k") == "idx" for z in astx.walk_expr(c["a"][0]))
+                        if (nm in ALIAS_MUT or (nm in ("move", "copy") and len(c["a"]) == 3) or own_move) and mut is None:
+                            mut = c
+        chk.obligation("ALIAS", construct, bad is None)
+        if bad:
+            chk.violation("ALIAS", construct, "read-after-shift", "%s: `%s` is read in `%s` after `%s` has already moved or destroyed elements; "
+                          "if it refers to an element of this vector the wrong value is inserted" % (
+                              astx.loc(f, bad[0]), x, astx.show(bad[0], 50), astx.show(bad[1], 50)), {"where": astx.loc(f)})
+    if n < 5:
+        chk.analysis_broken("ALIAS: only %d members take the element by const reference (floor 5)" % n)
+
+
 def run(chk, tier):
     db = D.load("checks")
     cap_rule(chk, db)
@@ -180,6 +228,7 @@ def run(chk, tier):
     own_rule(chk, db)
     stack_deleg(chk, db)
     pair_rule(chk, db)
+    alias_rule(chk, D.load("plain"))
     # SLOTS-W: a raw size store that may grow the vector is on a path that writes the newly exposed slots
     nsl = slots.check(chk, D.load("plain"), ["static_vector", "inplace_vector"], lambda r: False, only=("W",))
     if chk.rule_instances.get("SLOTS-W", 0) < 5:
